@@ -368,6 +368,21 @@ func monC10(rep Rep, v *View, cacheBefore []sim.CachedObj) (interesting bool) {
 			rep.Violate("cache/object-mutated", "an object read from a cache was modified by the reconcile: before %v after %v%s", co.Copy, co.Obj, ctx(v))
 		}
 	}
+	// "pods controlled by S that stop matching are released": a reconcile of a live, unpaused set that got as far
+	// as listing pods and met no failure has asked for the release of every such pod it saw
+	if v.Rec.ListedPods && v.Rec.Err == nil && !v.APIFailure() && !v.Deleting && !v.Paused {
+		released := map[string]bool{}
+		for _, a := range v.Rec.Actions {
+			if a.Resource == "pods" && isReleasePatch(a) {
+				released[a.Name] = true
+			}
+		}
+		for name := range v.Releasable {
+			if !released[name] {
+				rep.Violate("release/not-released", "pod %s is controlled by the set but does not match it (name or labels), and the reconcile did not release it%s", name, ctx(v))
+			}
+		}
+	}
 	if len(v.Foreign) > 0 || len(v.Releasable) > 0 || len(v.Adoptable) > 0 {
 		for _, a := range v.Rec.Actions {
 			if a.IsWrite() {
